@@ -150,14 +150,22 @@ class OpSummary:
     # -- regions -----------------------------------------------------------------------------------
     def region(self, facts):
         """semantic relation between L and R established at a site, or a drain loop, or None"""
+        from sym import SWAP, CMP
+        raw = [(f[1][1], f[1][3], f[1][4], f[2]) for f in facts if f[0] == 'b' and f[1][0] == 'op' and f[1][1] in CMP]
         drel = {}; hfacts = []
-        for op, a, b, pos in cmp_facts(facts):
+        for op, a, b, pos in raw:
             fa, fb = self.field(a), self.field(b)
-            if fa == ("L", "depth") and fb == ("R", "depth"):
-                drel[op] = pos
-            else:
-                hfacts.append((op, a, b, pos))
+            if fa == ("L", "depth") and fb == ("R", "depth"): drel[op] = pos
+            elif fa == ("R", "depth") and fb == ("L", "depth"): drel[SWAP[op]] = pos
+            else: hfacts.append((op, a, b, pos))
         if not drel and not hfacts: return None, "no relation facts"
+        # normalise ge/le into the lt/gt vocabulary used below
+        def norm(rel):
+            out = dict(rel)
+            if "ge" in rel: out["lt"] = not rel["ge"]
+            if "le" in rel: out["gt"] = not rel["le"]
+            return out
+        drel = norm(drel)
         if drel.get("lt") is True: d = "lt"
         elif drel.get("gt") is True: d = "gt"
         elif drel.get("lt") is False and drel.get("gt") is False: d = "eq"
@@ -167,13 +175,21 @@ class OpSummary:
             # t == big.hash >> ((big.depth - small.depth) << 1)
             return t[0] == 'op' and t[1] == 'shr' and self.field(t[3]) == big and t[4][0] == 'op' and t[4][1] == 'shl' and t[4][4] == C('i32', 1) \
                 and t[4][3][0] == 'op' and t[4][3][1] == 'sub' and self.field(t[4][3][3]) == big_d and self.field(t[4][3][4]) == small_d
+        def hmatch(op, a, b):
+            if d == "lt" and self.field(a) == lh and is_prefix(b, rh, ld, rd): return op
+            if d == "gt" and is_prefix(a, lh, rd, ld) and self.field(b) == rh: return op
+            if d == "eq" and self.field(a) == lh and self.field(b) == rh: return op
+            return None
         hrel = {}
         for op, a, b, pos in hfacts:
-            if d == "lt" and self.field(a) == lh and is_prefix(b, rh, ld, rd): hrel[op] = pos
-            elif d == "gt" and is_prefix(a, lh, rd, ld) and self.field(b) == rh: hrel[op] = pos
-            elif d == "eq" and self.field(a) == lh and self.field(b) == rh: hrel[op] = pos
+            m = hmatch(op, a, b)
+            if m is None:
+                m2 = hmatch(SWAP[op], b, a)
+                if m2 is not None: m = m2
+            if m is not None: hrel[m] = pos
             elif self.field(a) in (lh, rh) or self.field(b) in (lh, rh) or (a[0] == 'op' and a[1] == 'shr') or (b[0] == 'op' and b[1] == 'shr'):
                 return None, "unrecognised hash comparison %s %s %s" % (show(a)[:60], op, show(b)[:60])
+        hrel = norm(hrel)
         if hrel.get("lt") is True: h = "lt"
         elif hrel.get("gt") is True: h = "gt"
         elif hrel.get("lt") is False and hrel.get("gt") is False: h = "eq"
